@@ -22,7 +22,24 @@ def _read_ignore_file(path: Path) -> pathspec.PathSpec | None:
     ]
     if not lines:
         return None
-    return pathspec.PathSpec.from_lines("gitignore", lines)
+    try:
+        return pathspec.PathSpec.from_lines("gitignore", lines)
+    except ValueError:
+        # A line that is no valid pattern (a lone "!", a trailing backslash): git skips such
+        # lines and applies the others, so do the same instead of failing the whole run.
+        valid = [line for line in lines if _is_valid_pattern(line)]
+        if not valid:
+            return None
+        return pathspec.PathSpec.from_lines("gitignore", valid)
+
+
+def _is_valid_pattern(line: str) -> bool:
+    """Whether pathspec can compile this single gitignore line."""
+    try:
+        pathspec.PathSpec.from_lines("gitignore", [line])
+    except ValueError:
+        return False
+    return True
 
 
 def load_gitignore(directory: Path) -> pathspec.PathSpec | None:
